@@ -113,19 +113,26 @@ type rig struct {
 	client *stun.Client
 	opts   rigOpts
 
-	mu        sync.Mutex
-	txs       []*tx
-	fallback  []fbRec
-	closes    []*closeRec
-	delivered map[[12]byte][][]byte // datagrams the monitor delivered, by transaction id
-	problems  []rigProblem
-	seq       int32
+	mu         sync.Mutex
+	txs        []*tx
+	fallback   []fbRec
+	closes     []*closeRec
+	delivered  map[[12]byte][][]byte // datagrams the monitor delivered, by transaction id
+	problems   []rigProblem
+	seq        int32
+	closedOnce int32
 }
 
 type rigProblem struct {
 	Kind, Key string
 	Detail    string
 }
+
+// openRigs counts clients that were created and whose Close has not returned yet. The goroutine scan is
+// process-wide, so it is only meaningful when no other (abandoned: stuck or inconclusive scenario) client is alive.
+var openRigs int32 //nolint:gochecknoglobals
+
+var leakScansSkipped int64 //nolint:gochecknoglobals
 
 var errInjectedAgentClose = errors.New("injected agent close error")
 var errInjectedConnClose = errors.New("injected connection close error")
@@ -178,6 +185,7 @@ func newRig(o rigOpts) (*rig, error) {
 	// the finalizer would close a forgotten client from the GC's goroutine; the rig always closes explicitly
 	runtime.SetFinalizer(c, nil)
 	r.client = c
+	atomic.AddInt32(&openRigs, 1)
 
 	return r, nil
 }
@@ -387,6 +395,9 @@ func (r *rig) close() error {
 	err := r.client.Close()
 	cr.Err = err
 	cr.RetStamp = r.w.Tick()
+	if !errors.Is(err, stun.ErrClientClosed) && atomic.CompareAndSwapInt32(&r.closedOnce, 0, 1) {
+		atomic.AddInt32(&openRigs, -1)
+	}
 	atomic.StoreInt32(&cr.Returned, 1)
 
 	return err
@@ -663,7 +674,9 @@ func (r *rig) closeAccounting() []rigProblem {
 	if r.firstCloseReturn() == 0 {
 		return nil
 	}
-	if leaks := goroutineLeaks(); len(leaks) > 0 {
+	if atomic.LoadInt32(&openRigs) > 0 {
+		atomic.AddInt64(&leakScansSkipped, 1) // an abandoned client of an earlier scenario is still alive: the scan would blame this one
+	} else if leaks := goroutineLeaks(); len(leaks) > 0 {
 		probs = append(probs, rigProblem{"goroutine-leak", "goroutine-leak", fmt.Sprintf("still alive after Close returned: %v", leaks)})
 	}
 	n := atomic.LoadInt32(&r.conn.CloseCalls)
